@@ -69,6 +69,14 @@ theorem pdu_decode_reencode (d : EnvDef) (hd : d ∈ all.map (·.2)) (b : List N
     rcases hd with rfl | rfl | rfl | rfl | rfl | rfl <;> exact ⟨by decide, rfl⟩
   exact C16.enc_dec_idem d b v n hw.1 hb hw.2 h
 
+/-- whatever octets arrive, each of the six classes either decodes them or raises `DecodeError` — nothing else -/
+theorem pdu_errors_own (d : EnvDef) (hd : d ∈ all.map (·.2)) (b : List Nat) (e : Err)
+    (h : fromBytes d b = .error e) : e = .decode := by
+  have hw : WF d ∧ RefsOK d := by
+    simp only [all, List.map_cons, List.map_nil, List.mem_cons, List.not_mem_nil, or_false] at hd
+    rcases hd with rfl | rfl | rfl | rfl | rfl | rfl <;> exact ⟨by decide, by decide⟩
+  exact C16.errors_own_decode_strict d b e hw.1 hw.2 h
+
 /-! ## burst length by modulation, NOPE -/
 
 mutual
